@@ -200,6 +200,8 @@ def main():
     gen = P["gen"](rng, budget, tier)
     cases = number(dedup(corpus + gen))
     model = run_model(drv, [c for c in cases if not c.tags.get("nomodel")])
+    # the extracted program against the kernel, on a sample (a larger one in the thorough tier)
+    n_kernel, kernel_err = kernel_recheck(cases, model, limit=(40 if tier == "quick" else 400))
     cli = [c for c in cases if c.entry == "main"]
     lib = [c for c in cases if c.entry != "main"]
     if lib_broken:
@@ -299,6 +301,10 @@ def main():
         if members and any(all(k(c) for c in members) for k in known_classes):
             continue        # inside a listed finding class whose witness still reproduces
         violations.append((what, dict(payload, property=prop, kind="oracle"), True))
+    if kernel_err:
+        violations.append(("the extracted OCaml model and the Coq kernel disagree on the model's own result",
+                           {"property": prop, "kind": "extraction", "correspondence": "ocaml/driver.ml + Extract.v vs vm_compute",
+                            "detail": kernel_err}, False))
     if lib_broken:
         violations.append(("the in-process correspondence harness no longer builds against the library API of /repo; "
                            "the library-channel cases were skipped, the binary was still exercised",
@@ -325,6 +331,7 @@ def main():
         "trusted_base": props.TRUSTED,
         "theorems": cinfo["theorems"],
         "axioms_reported": cinfo["axioms"] or ["Closed under the global context"],
+        "extraction_rechecked_by_kernel": n_kernel,
         "coqchk": cinfo.get("coqchk", "not run in the quick tier (thorough: coqchk -o on Properties/%s.vo and its dependencies)" % prop),
         "evaluations": len(cases),
         "distinct_nontrivial": len(nontrivial),
